@@ -19,10 +19,13 @@
     step, the run without a sink: same verdict, value, returned lexer and store
     ([C08_silent_run_is_sinkless]); and what the sink has received only ever grows
     ([C08_log_only_grows]).
-    Not proved (correspondence + oracle, every case run with Context::empty and Context::new(sink)):
-    the error half (a sink-less failure is the sink-enabled failure or its first diagnostic)
-    beyond (ii). *)
-From Tephra Require Import MetricsSpec CLexer LexerFacts Run Peg RunCore RunRecover RunSink RunSilent.
+    (vi) THE ERROR HALF, for committed grammars ([comm g]), arbitrary lexers without recover state,
+    any fuel, any text (RunSinkErr): when the sink-less parse fails with an error, the sink-enabled
+    parse either fails with that very error having reported nothing, or its FIRST diagnostic is that
+    error (up to the tags user transforms put around it); and the dichotomy: a sink-enabled run
+    either reported nothing and IS the sink-less run, or the sink-less run failed and its error is
+    what was reported first. All three sentences of the property are theorems about the whole model. *)
+From Tephra Require Import MetricsSpec CLexer LexerFacts Run Peg RunCore RunRecover RunSink RunSilent RunSinkErr.
 
 Theorem C08_sinkless_success_reproduced :
   forall fuel g lx c0 c1 st v lx' st',
@@ -62,6 +65,44 @@ Print Assumptions C08_log_only_grows.
 
 (** [comm] is satisfiable by grammars that do recover: a list of recovering items inside brackets
     after an optional prefix *)
+(** the third sentence of the property *)
+Theorem C08_sinkless_error_is_first_diagnostic :
+  forall fuel g lx c1 c0 st e st0,
+  comm g = true -> crel c1 c0 -> has_sink c0 = false -> c_rec lx = None ->
+  run fuel g lx c0 st = (RErr e, st0) ->
+  (run fuel g lx c1 st = (RErr e, st0) /\ log st0 = log st)
+  \/ (exists e' more, log (snd (run fuel g lx c1 st)) = log st ++ e' :: more /\ strip e' = strip e).
+Proof. exact sinkless_error_is_first_diagnostic. Qed.
+Print Assumptions C08_sinkless_error_is_first_diagnostic.
+
+(** everything at once *)
+Theorem C08_dichotomy :
+  forall fuel g lx c1 c0 st,
+  comm g = true -> crel c1 c0 -> has_sink c0 = false -> c_rec lx = None ->
+  (log (snd (run fuel g lx c1 st)) = log st /\ run fuel g lx c0 st = run fuel g lx c1 st)
+  \/ (exists e s0 e' more, run fuel g lx c0 st = (RErr e, s0)
+        /\ log (snd (run fuel g lx c1 st)) = log st ++ e' :: more /\ strip e' = strip e).
+Proof. exact sink_run_dichotomy. Qed.
+Print Assumptions C08_dichotomy.
+
+(** concrete: both(recover_default(before ;, one a), one ;) under a pushed transform, in a context that
+    already carries another transform, on "b ;":
+    without a sink the parse fails with "expected a, found b"; with a sink it succeeds and the first
+    (only) diagnostic is that error inside the transform's tag *)
+Example C08_error_half_example :
+  let t := [Ch 1 1 2; Ch 1 1 6; Ch 1 1 14] in
+  let g := GCtxPush 7 (GBoth (GRecoverDef (1, RBefore [KSemi]) (GOne KA)) (GOne KSemi)) in
+  match c_with_filter (c_new Plain t) (Some (FDrop [KWs])) with
+  | Ok lx =>
+    match run 12 g lx (mkctx false [3] false) (mkstore [] []), run 12 g lx (mkctx true [3] false) (mkstore [] []) with
+    | (RErr e, _), (ROk _ _, st1) => match log st1 with [e'] => strip e' = strip e | _ => False end
+    | _, _ => False
+    end
+  | _ => False
+  end.
+Proof. vm_compute. reflexivity. Qed.
+Print Assumptions C08_error_half_example.
+
 Example C08_comm_example :
   comm (GRight (GMaybe (GRecoverDef (1, RBefore [KSemi]) (GOne KA)))
                (GBracketDef [KLP] (GListDef (GRecoverDef (2, RBefore [KComma]) (GOne KB)) KComma [KRP]) [KRP] [])) = true
